@@ -10,6 +10,7 @@ pub fn dispatch(req: &Value) -> Value {
         "binding_keys" => binding_keys(),
         "derive_outcomes" => derive_outcomes(),
         "ts_wins" => ts_wins(),
+        "serde_equiv" => super::equiv::run(req),
         "variant_literals" => variant_literals(),
         "flatten_shapes" => flatten_shapes(),
         "expansion_text" => expansion_text(req),
@@ -579,6 +580,18 @@ mod lits {
         #[ts(type = "string")]
         pub z: i32,
     }
+    #[cfg(not(feature = "no-fragile-witnesses"))]
+    #[derive(TS)]
+    pub struct FD3 {
+        /// joins } & { two objects
+        pub x: i32,
+        pub y: i32,
+    }
+    #[derive(TS)]
+    pub struct TO { #[ts(type = "{ a: number } & { b: number }")] pub f: i32, pub g: i32 }
+    #[cfg(not(feature = "no-fragile-witnesses"))]
+    #[derive(TS)]
+    pub struct FM { pub k: i32, #[ts(flatten)] pub a: FD3, #[ts(flatten)] pub b: TO }
     #[derive(TS)]
     pub struct FD2 {
         /// uses {{double}} braces and {0} verbatim
@@ -596,7 +609,7 @@ fn ts_quote_ref(s: &str) -> String {
 fn variant_literals() -> Value {
     use ts_rs::TS;
     let q = ts_quote_ref;
-    let cases: Vec<(&str, String, String)> = vec![
+    let mut cases: Vec<(&str, String, String)> = vec![
         ("plain variant names", lits::L1::inline(), format!("{} | {} | {}", q("plain"), q("two words"), q(""))),
         ("variant names that need escaping", lits::L1e::inline(), format!("{} | {} | {}", q("va\"r"), q("li\nne"), q("back\\slash"))),
         ("tag and content strings that need escaping", lits::L2e::inline(), format!("{{ {}: {}, {}: {{ x: number, }} }} | {{ {}: {}, {}: number }}", q("ta\"g"), q("va\"r"), q("c\\x"), q("ta\"g"), q("B"), q("c\\x"))),
@@ -605,8 +618,14 @@ fn variant_literals() -> Value {
         ("tagged struct", lits::L4::inline(), "{ \"kind\": \"L4\", x: number, }".to_string()),
         ("externally tagged", lits::L5::inline(), "{ \"A\": { x: number, } } | { \"B\": number } | \"C\"".to_string()),
         ("field documentation is carried verbatim (braces are not format directives)", lits::FD2::inline(), "{ \n/**\n * uses {{double}} braces and {0} verbatim\n */\nx: number, \n/**\n * also {1} here\n */\nz: string, }".to_string()),
+        ("a type override that is an intersection of object types is carried verbatim", lits::TO::inline(), "{ f: { a: number } & { b: number }, g: number, }".to_string()),
         ("field documentation sits immediately before its property", lits::FD::inline(), "{ \n/**\n * Doc of x\n */\nx: number, y: number, \n/**\n * Doc of z\n */\nz: string, }".to_string()),
     ];
+    #[cfg(not(feature = "no-fragile-witnesses"))]
+    {
+        cases.push(("field documentation containing ` } & { ` is carried verbatim", lits::FD3::inline(), "{ \n/**\n * joins } & { two objects\n */\nx: number, y: number, }".to_string()));
+        cases.push(("flattened object types are merged, the members themselves untouched", lits::FM::inline(), "{ k: number, \n/**\n * joins } & { two objects\n */\nx: number, y: number, f: { a: number } & { b: number }, g: number, }".to_string()));
+    }
     let mut out = vec![];
     let mut agree = true;
     for (what, got, want) in cases {
